@@ -5,6 +5,7 @@
 //      input tape: used for the differential validation of the translator and
 //      for replaying solver counterexamples against the real headers.
 #pragma once
+#include <array>
 #include <cstddef>
 #include <cstdint>
 extern "C" {
